@@ -287,7 +287,15 @@ def build_request(method: typing.Any, url: typing.Any, *, headers: typing.Any = 
 
 def n_requests(pool: typing.Any) -> int:
     """Requests the pool still counts (active + queued), read from its public
-    repr(): '<ConnectionPool [Requests: 1 active, 0 queued | Connections: ...]>'."""
+    repr(): '<ConnectionPool [Requests: 1 active, 0 queued | Connections: ...]>'.
+    (Evaluated with CrossHair's interception off: its regex model on the
+    rendered text gave a counterexample that did not reproduce.)"""
+    from .native import call_native
+
+    return call_native(_n_requests, pool)
+
+
+def _n_requests(pool: typing.Any) -> int:
     import re
 
     m = re.search(r"Requests: (\d+) active, (\d+) queued", repr(pool))
